@@ -1,6 +1,7 @@
 """C07 - VSOP87 heliocentric positions are physical, continuous, self-consistent (L)."""
 import importlib
 import math
+import os
 from fractions import Fraction
 
 from ..engine import Clause, chunks
@@ -784,6 +785,58 @@ def run_order_zeros(spec, ctx):
     ctx.sample({"planet": nm, "jde": y2jde(y0), "what": "sample"})
 
 
+# -- instants at which TWO consecutive rows of a series are both (almost) zero ------------------------------------------
+
+def vt_numpy_available():
+    import shutil as _sh
+    return _sh.which("python3-vt") is not None
+
+
+def run_double_zeros(spec, ctx):
+    """spec = (planet, coordinate).  The zeros of every row over the whole range (1.2e9 in all) are enumerated with
+    numpy in the tooling interpreter (vmc/aux/double_zero_search.py): the shortlist keeps those at which the NEXT row
+    is below 1.5e-7 (table units) too.  Every candidate is then refined here and the evaluator compared with the plain
+    sum on the doubles around it - a loop that stops 'once two consecutive terms are negligible' stops there."""
+    import json as _json
+    import subprocess as _sp
+    import tempfile as _tf
+    nm, coord = spec
+    M, P = mod(nm)
+    tab = {"L": M.VSOP87_L, "B": M.VSOP87_B, "R": M.VSOP87_R}[coord]
+    fd, path = _tf.mkstemp(prefix="vmc_dz_", suffix=".json")
+    try:
+        with os.fdopen(fd, "w") as f:
+            _json.dump({"series": [[i, [list(r) for r in ser]] for i, ser in enumerate(tab)],
+                        "t0": -3.999, "t1": 1.999, "eps": 1.5e-7}, f)
+        r = _sp.run(["python3-vt", os.path.join(os.path.dirname(os.path.dirname(os.path.abspath(__file__))), "aux",
+                                                "double_zero_search.py"), path], capture_output=True, text=True, timeout=3000)
+    finally:
+        os.unlink(path)
+    if r.returncode != 0:
+        raise RuntimeError("double_zero_search failed: " + r.stderr[-500:])
+    cands = _json.loads(r.stdout)
+    zeros = sum(int(6.0 * abs(row[2]) / math.pi) for ser in tab for row in ser[:-1])
+    ctx.evals += zeros
+    ctx.count("row_zeros_enumerated", zeros)
+    ctx.count("double_zero_candidates", len(cands))
+    for order, k, t in cands:
+        (A, B, C), (A2, B2, C2) = tab[order][k], tab[order][k + 1]
+        j = J2000 + 365250.0 * t
+        # the doubles around the candidate at which both term values are smallest
+        best = min((j + d * 4.66e-10 for d in range(-400, 401, 8)),
+                   key=lambda x: max(abs(A * math.cos(B + C * ((x - J2000) / 365250.0))),
+                                     abs(A2 * math.cos(B2 + C2 * ((x - J2000) / 365250.0)))))
+        for x in (best, math.nextafter(best, math.inf), math.nextafter(best, -math.inf)):
+            ctx.evals += 1
+            ctx.nt_count += 1
+            what = "rows %d and %d of %s%d are both near zero" % (k, k + 1, coord, order)
+            for site, msg, dev in check_evaluator_at(nm, x, what):
+                ctx.viol({"planet": nm, "jde": x, "what": what}, msg, dev=dev, site="double_zero_" + site)
+    ctx.outcome((nm, coord, len(cands) > 0))
+    ctx.obs(spec, len(cands))
+    ctx.sample({"planet": nm, "jde": J2000, "what": "sample"})
+
+
 def term_cases(tier):
     cases = []
     for nm in NAMES:
@@ -862,6 +915,9 @@ def clauses(tier):
                run_nutation_zeros, replay_epoch, floor=20),
         Clause("fk5_zero_crossings", fk5_specs(tier), run_fk5_zeros, lambda c: [m for _, m, _ in check_fk5(c)],
                floor=500),
+    ] + ([Clause("double_zero_rows", [(nm, c) for nm in NAMES for c in ("L", "B", "R")], run_double_zeros,
+                 lambda c: [m for _, m, _ in check_evaluator_at(c["planet"], c["jde"], c.get("what", ""))], floor=20)]
+         if (tier == "thorough" and vt_numpy_available()) else []) + [
         Clause("tables", [[{"planet": nm} for nm in NAMES]], run_tables,
                lambda c: [m for _, m, _ in check_tables(c)], floor=8),
     ]
